@@ -18,7 +18,8 @@ EXPLANATION = ("Rotating sink, size side. R1: write_log performs, on every path,
                "to be renamed. R5 (start-up): files are deleted only under remove_old_files() and mode \"w\"; append mode re-registers and "
                "deletes nothing; recovered files are ordered newest first; the constructor recovers, opens, registers and takes the "
                "current size; a directory entry is deleted or adopted only when its name starts with '<stem>.' and has the sink's "
-               "extension (unrelated files present are left alone). Checked for RotatingSink<FileSink> and RotatingSink<JsonFileSink>.")
+               "extension (unrelated files present are left alone). Checked for RotatingSink<FileSink> and RotatingSink<JsonFileSink>."
+               ' R4g/R4h: the two append helpers and extract_stem_and_extension. R5l: recovered entries carry the index in their name. R6 (= C06.R5): every write marks the stream dirty. R7: every RotatingFileSinkConfig setter stores its argument itself.')
 NOT_DECIDED = ("File-size arithmetic for all size sequences, the index/date parsing of recovered names (R5 decides which entries may be "
                "touched and in which mode, not what is parsed out of them), the ordering of names as values; for the JSON sink the tracked size counts the text statement, not the JSON line (noted).")
 ASSUMPTIONS = ["the base sink writes the whole statement or throws (StreamSink::safe_fwrite)"]
